@@ -295,6 +295,14 @@ func (e *c07env) conn(stream []byte, desc string) string {
 			_, existedBefore, _, _, _ = server.VerifSession(e.sta, uid, sid)
 		}
 	}
+	// WebSocket: would the libraries upgrade this request at all (see c07ws.go)?
+	upg := true
+	if tr == "ws" && uid != nil {
+		upg = wsUpgradable(pkt)
+		if !upg {
+			e.c.o.stat("ws_request_not_upgradable", 1)
+		}
+	}
 	ev := make(chan string, 64)
 	peer := newEvConn("peer", stream, ev)
 	e.dialer.ev = ev
@@ -308,6 +316,18 @@ func (e *c07env) conn(stream []byte, desc string) string {
 	}()
 	first := <-ev
 	decision := ""
+	if first == "peer:write" && tr == "ws" {
+		// the handshake reply of this transport starts with the 101 of the upgrade; anything else written to the
+		// peer is net/http's or gorilla's refusal of the request (it races with the close that follows it)
+		time.Sleep(2 * time.Millisecond)
+		if w := peer.written(); !bytes.HasPrefix(w, []byte("HTTP/1.1 101 ")) {
+			first = "peer:close"
+			if upg || uid == nil {
+				e.c.o.V("C07 refusal-written-to-peer", map[string]any{"case": desc, "transport": tr, "first_packet": hx(pkt), "written": string(w[:min(len(w), 80)]),
+					"what": "the server wrote something other than the upgrade reply to a peer whose request the libraries would upgrade, or whose credentials do not open"})
+			}
+		}
+	}
 	switch first {
 	case "peer:write":
 		_, has, _, _, _ := server.VerifSession(e.sta, uid, sid)
@@ -327,7 +347,13 @@ func (e *c07env) conn(stream []byte, desc string) string {
 		decision = "web"
 	case "peer:close":
 		decision = "close"
-		if tr != "" {
+		if tr == "ws" && uid != nil && !upg {
+			// credentials that open, on a request that cannot be upgraded: refused after authentication. Whether the
+			// credentials were good enough to get that far is the model's row (accepted-and-not-upgradable = close)
+			if _, has, _, _, _ := server.VerifSession(e.sta, uid, sid); has {
+				e.active[hx(uid)] = true
+			}
+		} else if tr != "" {
 			// "every other first packet is handled as ordinary web traffic": a COMPLETE first packet was closed on
 			e.c.o.V("C07 complete-packet-not-relayed", map[string]any{"case": desc, "transport": tr, "first_packet": hx(pkt),
 				"server_time_ns": e.cur.UnixNano(), "server_private_key": hx(e.keys.priv[:]), "decision": "connection closed, nothing relayed"})
@@ -363,7 +389,11 @@ func (e *c07env) conn(stream []byte, desc string) string {
 			e.dialer.last.Close()
 		}
 	}
-	e.c.o.T(fmt.Sprintf("auth.conn stream=%s%s now=%d", hexOrDash(stream), hiddenArg(tr, pkt), e.cur.UnixNano()), decision)
+	upgArg := ""
+	if !upg {
+		upgArg = " upg=0"
+	}
+	e.c.o.T(fmt.Sprintf("auth.conn stream=%s%s now=%d%s", hexOrDash(stream), hiddenArg(tr, pkt), e.cur.UnixNano(), upgArg), decision)
 	e.nConn++
 	e.c.o.stat("conn_"+strings.SplitN(decision, " ", 2)[0], 1)
 	return decision
@@ -769,6 +799,11 @@ func c07(c *ctx) {
 			b := r.intn(nbits)
 			if k%3 == 0 && f.tr == "tls" {
 				b = r.intn(160 * 8)
+			}
+			if k%2 == 0 && f.tr == "ws" {
+				// the request line and the upgrade headers: credentials untouched, the request possibly no longer one
+				// that net/http and gorilla upgrade (accepted, then closed without a reply), or no longer a GET (web)
+				b = r.intn(bytes.Index(pk.pkt, []byte("Hidden: ")) * 8)
 			}
 			v[b/8] ^= 1 << (b % 8)
 			e.resetCache()
